@@ -1251,18 +1251,27 @@ def kk_product(S, I, variant):
         S.holds("one running product, one running sum", False)
         return
     shift = sum_shift_lemma(S, x, cs[0], g, n)
-    # pointwise: the code's null mean of the padded data is mu_k + g
+    # pointwise: the code's null mean of the padded data is mu_k + g  (modular NRA fact from the shift lemma's instance)
     c = ctx()
-    kk = z3.Int(c.fresh("kq"))
+    PSg = cs[0].fold("+")
+    tg = xadd(npx(t), g)
+    mcode = lambda k: mu_spec(Nspec, tg, PSg, k)
+    k0 = z3.Int(c.fresh("kq"))
+    c.index_terms_add(k0)
+    ident = lambda k: xsame(mcode(k), xadd(mu(k), g))
+    rid = S.prove_using("padded null mean = mu_k + g", ident(k0),
+                        [k0 >= 0, k0 < zi(n), zi(n) <= zi(iterm(Nspec)), xsame(PSg.at(k0), xadd(PS.at(k0), xmul(XR.const(k0), g)))], opaque=[])
 
     def pre(k):
         shift(k)
+        if rid.status == "proved":
+            c.assume(bimp(band(icmp(">=", k, 0), icmp("<", k, n)), ident(zi(k))))
 
     instF = scoped_induction(S, "running-products-agree", lambda i: xsame(cps[0].fold("*").at(i), T.at(i)), n,
-                             pre=lambda i: (shift(i), shift(i + 1)))
+                             pre=lambda i: (pre(i), pre(i + 1)))
     for j in indices(S, n, "j"):
-        shift(j)
-        shift(j + 1)
+        pre(j)
+        pre(j + 1)
         instF(j + 1)
         S.eq("hist[j]=min(1,1/prod (x_i+g)/(mu_i+g)); 0 where mu_j+g<0", hist.at(j), spec(j, T.at(j + 1)))
     S.check_vacuity("kk")
@@ -1379,7 +1388,7 @@ def sprt_product(S, I, variant):
 # ------------------------------------------------------------------ well-formed p-values for the Kaplan tests and the SPRT (C11)
 
 def generic_wf(S, I, fn, self, x, n, native, factor_ok, hist_of, p_of, agg, ro, entry_ok=None, pre_Q=None, extra_inst=None,
-               Qpred=None, known=None, known_clauses=("hist[j] in [0,1], not NaN", "p in [0,1], not NaN")):
+               Qpred=None, known=None, known_clauses=("hist[j] in [0,1], not NaN", "p in [0,1], not NaN"), factor_lemma=None):
     """shared shape: terms = cumprod(f) [+ overrides]; hist = hist_of(terms); p = p_of(extreme(terms) | terms[-1]).
     factor_ok(k, Fk) : invariant on the running product over the first k factors (proved by induction);
     entry_ok(T)      : what is needed of every entry of `terms` (after overrides) for a well-formed history."""
@@ -1412,6 +1421,21 @@ def generic_wf(S, I, fn, self, x, n, native, factor_ok, hist_of, p_of, agg, ro, 
         S.holds("exactly one running product", False)
         return
     Fc = cps[0].fold("*")
+    if factor_lemma is not None:
+        # a fact about the single factor f_k, proved once at a fresh index from the listed hypotheses only (modular), then
+        # instantiated wherever the running-product invariant is unfolded
+        goal_f, hyps_f, opq_f = factor_lemma
+        k0 = z3.Int(c.fresh("fl_k"))
+        c.index_terms_add(k0)
+        rfl = S.prove_using("factor lemma", goal_f(k0, cps[0].at(k0)), [k0 >= 0, k0 < zi(n)] + hyps_f(k0), opaque=opq_f(k0))
+        old_pre = pre_Q
+
+        def pre_Q(k, old_pre=old_pre):
+            if old_pre:
+                old_pre(k)
+            if rfl.status == "proved":
+                for q in (k, k + 1, k - 1):
+                    c.assume(bimp(band(icmp(">=", q, 0), icmp("<", q, n)), goal_f(zi(q), cps[0].at(zi(q)))))
     instQ = induction_with(S, "running product invariant", lambda k: factor_ok(k, Fc.at(k)), n, pre=pre_Q)
     ext = [e for e in c.trace if e[0] == "extreme"]
     # the array the history is computed from: the argument of the extreme when there is one, else recover it from hist
@@ -1632,7 +1656,11 @@ def sprt_wf(S, I, variant):
                hist_of=lambda T: xminimum(ONE, xdiv_np(ONE, T)),
                p_of=lambda M: xmin_py(XR.const(1), xdiv_np(ONE, M)), agg="max", ro=ro,
                entry_ok=nonneg_fin, pre_Q=pre, extra_inst=lambda q: pre(zi(q)), known=None if insideR else "K9",
-               known_clauses=("hist[j] in [0,1], not NaN",))
+               known_clauses=("hist[j] in [0,1], not NaN",),
+               factor_lemma=(lambda k, fk: bimp(band(inside(mu(k), u), xcmp(">=", ek(k), zero), xcmp("<=", ek(k), u)),
+                                                band(xr(fk).fin(), xcmp(">=", fk, zero))),
+                             lambda k: [xcmp(">", u, zero), xcmp(">=", x.at(k), zero), xcmp("<=", x.at(k), u), xr(mu(k)).wf(), xr(ek(k)).wf()],
+                             lambda k: [mu(k), ek(k)]) if finiteN else None)
 
 
 # ------------------------------------------------------------------ conversions, ALPHA == betting (C12)
